@@ -223,7 +223,7 @@ pub(crate) fn profile_for(id: &str) -> Profile {
             p
         }
         "C02" => {
-            let mut p = p.w(&[(K::Register, 10), (K::RegPiece, 34), (K::CompletionCollision, 4), (K::Nick, 16), (K::Gated, 14), (K::NewConn, 6), (K::Eof, 6), (K::Reset, 5), (K::Quit, 3), (K::EofMidLine, 2), (K::CapStuff, 6), (K::ReReg, 4), (K::Privmsg, 10), (K::Whois, 5), (K::Ison, 6), (K::Names, 3), (K::Join, 8), (K::Kill, 2), (K::Oper, 2)]);
+            let mut p = p.w(&[(K::Register, 10), (K::RegPiece, 34), (K::CompletionCollision, 4), (K::Nick, 16), (K::Gated, 14), (K::NewConn, 6), (K::Eof, 6), (K::Reset, 5), (K::Quit, 3), (K::EofMidLine, 2), (K::CapStuff, 6), (K::ReReg, 4), (K::Privmsg, 10), (K::Whois, 5), (K::Ison, 6), (K::Names, 3), (K::Join, 8), (K::Kill, 2), (K::Oper, 4), (K::ModeUser, 5), (K::Wallops, 4), (K::Away, 2)]);
             p.nick_pool = 3;
             p.pre_register = 2;
             p.conns = (4, 7);
